@@ -2,6 +2,12 @@
 """Writes seeded/<ID>-<X>/meta.json from the sub-agent's agent_meta.json, my notes below and seeded/matrix.tsv."""
 import json,os,glob
 NOTES={
+ "C13-I":"seventh (mini) round; caught at once (edge-of-class alphabet: U+0800)",
+ "C06-I":"seventh (mini) round; first missed (labels were either common fields or unique to one variant); caught since the chain workspaces have `Shape { Circle(size) Square(size) Dot }`: references of one variant's `size` must not list the other's",
+ "C07-I":"seventh (mini) round; first missed (no label shared by all variants with different types); caught since `Val { Number(value: Int) Word(value: String) }` in the chain workspaces, with per-variant ground truth",
+ "C20-I":"seventh (mini) round; the analysed text keeps the CRs of a didChange while the store strips them: that is C13's subject (the text the server analyses), and C13's and C15's real-server tiers report it; C20 does not",
+ "C04-I":"seventh (mini) round; NOT judged: the change makes the message of `todo as` / `panic as` a single term (`todo as \"a\" <> b` = `{ todo as \"a\" } <> b`). Gleam releases differ on this very point (string literal only, then an expression unit), the pinned glas reads a full expression; the reference generator has always wrapped non-atomic messages in braces for that reason (DESIGN 9.2, C04), so neither reading is asserted",
+
  "C03-H":"sixth (mini) round, one change per agent; caught at once",
  "C11-H":"sixth (mini) round; caught at once (visibility-only edits are among C11's item edits)",
  "C15-H":"sixth (mini) round; caught at once",
@@ -80,7 +86,7 @@ if os.path.exists(p):
         f=line.rstrip('\n').split('\t')
         if len(f)<3: matrix[f[0]]={"error":f[1] if len(f)>1 else ""}; continue
         matrix[f[0]]={kv.split('=')[0]:int(kv.split('=')[1]) for kv in f[1:]}
-for p2 in ('/verif/seeded/round2.tsv','/verif/seeded/round3.tsv','/verif/seeded/round4.tsv','/verif/seeded/round5.tsv','/verif/seeded/round6.tsv'):
+for p2 in ('/verif/seeded/round2.tsv','/verif/seeded/round3.tsv','/verif/seeded/round4.tsv','/verif/seeded/round5.tsv','/verif/seeded/round6.tsv','/verif/seeded/round7.tsv'):
   if os.path.exists(p2):
     for line in open(p2):
         f=line.rstrip('\n').split('\t')
